@@ -252,6 +252,9 @@ def finish(prop, tier, seed, t0, build, findings, coverage, assumptions, broken=
     for f in findings.known_hit.values():
         print('KNOWN-FINDING: property=%s %s' % (prop, f.get('what', f['id'])))
     replays = os.path.join(VERIF, 'replays')
+    stale = os.path.join(replays, '%s-%s-%d.json' % (prop, tier, seed))
+    if os.path.exists(stale):
+        os.remove(stale)
     if findings.new:
         violations = len(findings.new)
         path = os.path.join(replays, '%s-%s-%d.json' % (prop, tier, seed))
